@@ -34,7 +34,9 @@ def gen_cases(ctx):
     for pol, src in pol_src:
         th = ctx.rng.choice([8, 9]) if ctx.quick else ctx.rng.choice([8, 10, 12, 16, 20])
         cases.append({"kind": "absorb", "th": th, "N": 2 * th + 12, "pol": pol, "src": src, "nsteps": 1500, "off": ctx.rng.randint(-1, 2),
-                      "window": 150 if ctx.quick else 220, "margin": 45 if ctx.quick else 66})
+                      # the comparison window must contain the pulse (its peak is near step 216) and end before the reference domain's own
+                      # boundary can answer (4 * margin steps at Courant 1/2)
+                      "window": 300 if ctx.quick else 320, "margin": 75 if ctx.quick else 80})
     return cases
 
 
